@@ -25,7 +25,7 @@ from ..core import Suite, Ctx
 from .. import tg, cg, gen
 from ..same import same
 from ..codec import short
-from ..errtree import own_tree, tree_eq, union_members, tree_stats
+from ..errtree import own_tree, tree_eq, union_members, tree_stats, contains_itself
 
 ID = 'C07'
 RULE = ("Hypothesis: full type grammar x a value built from the type and then hit by 1-4 mutations (several bad elements, missing + extra + "
@@ -279,6 +279,10 @@ def check(case: t.Any, ctx: Ctx) -> None:
         return
     if tr is None:
         ctx.label('accepted')
+        return
+    if contains_itself(tr):
+        ctx.fail('compositional', 'tree-contains-itself', f"T = {nd.render()[:300]}; v = {short(v, 200)}; a node of the error tree is among its own descendants "
+                 f"(root {type(tr).__name__} expecting {getattr(tr, 'expected', None)!r:.100})")
         return
     st_ = tree_stats(tr)
     ctx.label('rejected', f"root:{nd.kind.split(':')[0]}", f"treedepth:{min(st_['depth'], 6)}")
